@@ -156,9 +156,21 @@ def run_block(case):
     if len(got) != len(exp) or any(fr(g) != e for g, e in zip(got, exp)):
       return bad("acorr", "acorr is not the plain lag sum", exp, got)
   r = [sum((blk[n] * blk[n + t] for n in range(N - t)), F(0)) for t in range(N)]
-  T = toeplitz(qs(r))
-  if [[fr(v) for v in row] for row in T] != [[r[abs(i - j)] for i in range(N)] for j in range(N)]:
-    return bad("toeplitz", "toeplitz is not the table r[|i-j|]", None, T)
+  for kind in ("list", "tuple"):
+    src = qs(r) if kind == "list" else tuple(qs(r))
+    try:
+      T = toeplitz(src)
+    except Exception as exc:
+      return bad("toeplitz:exception:" + type(exc).__name__, "toeplitz raised for a %s of lags" % kind, None, str(exc)[:160])
+    if [[fr(v) for v in row] for row in T] != [[r[abs(i - j)] for i in range(N)] for j in range(N)]:
+      return bad("toeplitz", "toeplitz is not the table r[|i-j|]", None, T)
+    if kind == "list":
+      # the table is a new object: loading its diagonal must not change the lags it was built from
+      for i in range(N):
+        T[i][i] = T[i][i] + 1
+      if [fr(v) for v in src] != r or any(row is src for row in T):
+        return bad("toeplitz:aliases-input", "the table returned by toeplitz shares a line with its input list",
+                   r, [fr(v) for v in src])
   for ml in range(0, N):
     lm = lag_matrix(qb, ml) if ml < N - 1 or N == 1 else lag_matrix(qb)
     exp = [[sum((blk[n - i] * blk[n - j] for n in range(ml, N)), F(0)) for i in range(ml + 1)]
